@@ -1,36 +1,161 @@
+// C03 — resource manager: usage equals the sum of holders and never exceeds limits.
+//
+// The real p2p/host/resource-manager package (instrumented: every scope lock is a scheduling
+// point) is driven through its exported API only and compared with the reference ledger of
+// model.go (read its header first: life cycle, weaker readings W1-W7). Two strata, drawn first:
+//
+//	S  sequential histories, exact (seq.go, seq_run.go): 20-80 operations; every operation is
+//	   predicted from the ledger, executed, and then the full Stat(), the View* reading of the
+//	   touched scopes, the connection/stream/span handles and the trace shadow of the scopes the
+//	   public Stat API does not expose are compared with the ledger sums.
+//	C  concurrent schedules (conc.go): 2-4 client tasks + an auditor under the seeded lock-level
+//	   scheduler (optionally with stalls, so that the GC ticker fires in the middle); bounds at
+//	   sampled instants, exact conservation at quiescence, zero after the concurrent closing phase.
+//
+// Oracles and violation classes (DESIGN.md C03 a-f):
+//
+//	(a) C03/ledger-mismatch/<scope-class>/<resource>      a reading differs from the ledger sum
+//	(b) C03/bound/negative|over-limit/<class>/<resource>, C03/bound/priority/<class>
+//	(c) C03/admission/admitted-without-room/<op>/<class>/<resource>, C03/admission/refused-with-room/<op>,
+//	    C03/refusal-error-not-sentinel/<op>, C03/refusal-changed-state/<op>,
+//	    C03/closed-scope-accepted/<op>, C03/admission/allowlisted-placement
+//	(d) C03/refused-reparent-inconsistent/<setpeer|setprotocol|setservice|setpeer-allowlisted>,
+//	    C03/reparent-twice-accepted/<op>
+//	(e) C03/nonzero-after-last-done/<class>/<resource>, C03/subnet-not-released
+//	(f) C03/subnet-cap-exceeded, C03/subnet-limiter/refused-below-cap
+//	    C03/panic, C03/deadlock, C03/phantom-scope/<class>, C03/stat-inconsistent/<class>
+//
+// Known finding F5 (DESIGN.md section 9) has its own class,
+// C03/refused-reparent-inconsistent/setpeer-allowlisted: a SetPeer that is refused while an
+// allow-listed connection is being transferred to the normal scopes leaves the connection open but
+// charged to no scope. When it fires the ledger adopts the implementation's answer for that one
+// connection (placement "nowhere"), no further SetPeer is generated for it (what the implementation
+// does with such a connection afterwards is follow-on damage of the same defect: a later successful
+// SetPeer releases from the transient scope, and its Done from the system scope, what other
+// connections hold) and everything else in the run keeps being checked.
+//
+// SENSITIVITY. Each mutation was applied alone to a copy of the instrumented overlay (never to
+// /repo) and run for 20-25 s on 4 workers; "first" is the class reported first, others followed.
+// All were caught; none was missed.
+//
+//	scope.go  reserveMemoryForEdges: undo of the charged prefix removed     -> refusal-changed-state/reservememory, ledger-mismatch/*/memory, bound/negative
+//	scope.go  reserveMemoryForEdges: undo stops one edge short                -> refusal-changed-state/reservememory
+//	scope.go  addStreamForEdges: undo removed                                 -> refusal-changed-state/openstream
+//	scope.go  addConnForEdges: undo removed                                   -> refusal-changed-state/openconn
+//	rcmgr.go  SetPeer does not release the transient scope                    -> ledger-mismatch/transient/conns-*
+//	rcmgr.go  SetProtocol does not release the transient scope                -> ledger-mismatch/transient/streams-*
+//	scope.go  releaseMemoryForEdges skips the first edge                      -> ledger-mismatch/{transient,peer,system}/memory
+//	scope.go  doneUnlocked does not release to the last edge                  -> ledger-mismatch/system/*, nonzero-after-last-done/system/*
+//	scope.go  doneUnlocked without done guard and without zeroing (double release) -> ledger-mismatch/{conn,stream,span,...}, nonzero-after-last-done
+//	scope.go  doneUnlocked never sets the done flag                           -> closed-scope-accepted/{reservememory,beginspan}
+//	rcmgr.go  connectionScope.Done without done guard (rmConn twice)          -> subnet-cap-exceeded (needs a second connection in the subnet: ~1 run in 700)
+//	rcmgr.go  connectionScope.Done without rmConn                             -> subnet-not-released, subnet-limiter/refused-below-cap
+//	rcmgr.go  refused OpenConnection does not give the limiter slot back      -> subnet-not-released, subnet-limiter/refused-below-cap
+//	scope.go  checkMemory ignores the addition overflow                       -> admission/admitted-without-room/reservememory/*/memory, bound/negative
+//	scope.go  checkMemory without the big.Int path (multiplication overflow)  -> admission/refused-with-room/*
+//	scope.go  checkMemory uses prio instead of 1+prio                         -> admission/refused-with-room/reservememory
+//	rcmgr.go  refused SetProtocol (peer-protocol scope full) keeps the protocol charge -> refused-reparent-inconsistent/setprotocol
+//	rcmgr.go  refused SetService (peer-service scope full) keeps the service charge    -> refused-reparent-inconsistent/setservice
+//	scope.go  ReserveForChild keeps the memory when the stream check fails    -> refused-reparent-inconsistent/{setprotocol,setservice}
+//	scope.go  span Done does not release to its owner                         -> ledger-mismatch/{system,...}/memory
+//	scope.go  span ReleaseMemory does not reach the owner                     -> ledger-mismatch/*/memory
+//	scope.go  IsUnused ignores the reference count (GC collects used scopes)  -> ledger-mismatch/{peer,protocol,system}/*
+//	scope.go  addConns does not check the total connection limit              -> admission/admitted-without-room/openconn/*, bound/over-limit
+//	allowlist.go AllowedPeerAndMultiaddr accepts any listed peer              -> admission/admitted-without-room/setpeer/system/*
+//	conn_limiter.go per-subnet comparison off by one                          -> subnet-cap-exceeded
+//
+// Candidate repair of F5 (transferAllowedToStandard reserves in the normal scopes first and swaps
+// the edges only on success; SetPeer clears isAllowlisted only after the transfer succeeded), applied
+// the same way: 3 400 runs, no violation of any class (so the W3 reading raises no false alarm on the
+// repaired code). A first version of the repair that still cleared isAllowlisted before the transfer
+// was reported at once (admission/admitted-without-room/setpeer/system, ledger-mismatch/*).
 package c03
 
 import (
 	"fmt"
-	"net/netip"
+	"os"
+	"strings"
 	"testing"
+	"time"
 
-	"github.com/libp2p/go-libp2p/core/peer"
-	ma "github.com/multiformats/go-multiaddr"
-	manet "github.com/multiformats/go-multiaddr/net"
-	mh "github.com/multiformats/go-multihash"
+	rcmgr "github.com/libp2p/go-libp2p/p2p/host/resource-manager"
+
+	"verifsim/harness/common"
+	"verifsim/simrt"
 )
 
-func TestBuild(t *testing.T) {
-	for _, s := range []string{"/ip4/10.0.1.1/tcp/1", "/ip6/::ffff:10.0.1.3/tcp/1", "/ip6/2001:db8:0:1::1/udp/1/quic-v1", "/dns4/example.com/tcp/443", "/ip4/127.0.0.1/tcp/1", "/ip6/::1/tcp/1"} {
-		m, err := ma.NewMultiaddr(s)
-		if err != nil {
-			fmt.Println(s, "ERR", err)
-			continue
-		}
-		ip, err := manet.ToIP(m)
-		if err != nil {
-			fmt.Println(s, "->", m, "ToIP err", err)
-			continue
-		}
-		a, ok := netip.AddrFromSlice(ip)
-		fmt.Println(s, "->", m, len(ip), a, ok, a.Is4(), a.Is6(), a.Is4In6())
+func TestSim(t *testing.T) {
+	common.Main(t, common.Harness{Property: "C03", Run: run})
+}
+
+func run(t *testing.T, tape *simrt.Tape) *common.Outcome {
+	g := simrt.Gen{S: tape.G}
+	o := &common.Outcome{}
+	concurrent := g.Weighted(3, 1) == 1
+	cfg := drawConfig(g)
+	if concurrent {
+		o.Logf("stratum C (concurrent)")
+	} else {
+		o.Logf("stratum S (sequential)")
 	}
-	h, _ := mh.Sum([]byte("peer-0"), mh.SHA2_256, -1)
-	p := peer.ID(h)
-	fmt.Println(p.String())
-	q, err := peer.Decode(p.String())
-	fmt.Println(q == p, err)
-	m, err := ma.NewMultiaddr("/ip4/9.9.9.9/p2p/" + p.String())
-	fmt.Println(m, err)
+	for _, l := range cfg.describe() {
+		o.Logf("%s", l)
+	}
+	w := &world{o: o, cfg: cfg, led: newLedger(cfg), sh: newShadow(cfg)}
+	var plan *cPlan
+	stall := 0
+	if concurrent {
+		plan = drawPlan(g, cfg)
+		stall = plan.stall
+	}
+	finished := false
+	res := simrt.Run(t, simrt.Config{StallPermille: stall, MaxSteps: 2000000, IdleLimit: time.Hour, NoTrace: !concurrent}, tape.S, func() {
+		rm, err := cfg.build(w.sh)
+		if err != nil {
+			o.Trouble = "NewResourceManager: " + err.Error()
+			return
+		}
+		w.rm = rm
+		w.st = rm.(rcmgr.ResourceManagerState)
+		defer rm.Close()
+		if concurrent {
+			runConcurrent(w, g, plan)
+		} else {
+			runSequential(w, g)
+		}
+		finished = true
+	})
+	o.Sched = res
+	o.Virtual = res.Virtual
+	switch {
+	case res.Panic != "":
+		o.Violate("C03/panic", "%s", firstLines(res.Panic, 14))
+	case res.StepLimit:
+		o.Trouble = "step limit"
+	case res.Stuck || (!finished && o.Trouble == ""):
+		o.Violate("C03/deadlock", "run did not finish: stuck=%v residue=%v", res.Stuck, res.Residue)
+	case len(res.Residue) > 0 && o.Trouble == "":
+		o.Trouble = fmt.Sprintf("goroutines left after Close: %v", res.Residue)
+	}
+	o.Sig = w.sig.String()
+	if os.Getenv("C03_TRACE") != "" { // debugging aid: decoded trace of every run on stdout
+		fmt.Printf("==== run: %d violations, trouble=%q steps=%d\n", len(o.Violations), o.Trouble, res.Steps)
+		for _, l := range o.Trace {
+			fmt.Println(l)
+		}
+	}
+	if concurrent {
+		o.Nontrivial = w.changed >= 2 && w.activeClients >= 2
+	} else {
+		o.Nontrivial = w.changed >= 2 && w.refused >= 1
+	}
+	return o
+}
+
+func firstLines(s string, n int) string {
+	l := strings.Split(s, "\n")
+	if len(l) > n {
+		l = l[:n]
+	}
+	return strings.Join(l, " | ")
 }
